@@ -456,9 +456,8 @@ def _run(chk, wd, proved):
     for i in bad[:5]:
         chk.violation({'kind': 'model and implementation disagree', 'part': 'parse-time environment merge',
                        'case': repr(pmeta[i])}, nofail=True)
-    smoke = None
-    if chk.tier == 'thorough':
-        smoke = fork_smoke(chk, wd)
+    # the real fork/exec of the configured command, in both tiers (skipped gracefully when fork is unavailable)
+    smoke = '; '.join(fork_smoke(chk, wd, v) for v in ('full', 'falsy'))
 
     if not proved:
         chk.violation({'kind': 'proof obligation no longer checks', 'detail': chk.proof_failure,
@@ -560,19 +559,22 @@ json.dump({'fds': fds, 'pgid': os.getpgrp(), 'pid': os.getpid(), 'cwd': os.getcw
 '''
 
 
-def fork_smoke(chk, wd):
-    """One real forked child through the real Subprocess.spawn(): it reports
-    its descriptors, process group, cwd, umask and environment."""
+def fork_smoke(chk, wd, variant='full'):
+    """One real forked child through the real Subprocess.spawn() (real get_execv_args, real fork,
+    real execve of the configured command): it reports its descriptors, process group, cwd, umask and
+    environment.  variant 'full': directory, umask 037, environment, group, separate stderr;
+    variant 'falsy': umask 000, no directory, no environment, no group, redirect_stderr."""
     import select
     import time
     try:
         from supervisor.options import ServerOptions, ProcessConfig
         from supervisor.process import Subprocess
         import logging
-        script = os.path.join(wd, 'report.py')
+        full = (variant == 'full')
+        script = os.path.join(wd, 'report_%s.py' % variant)
         with open(script, 'w') as f:
             f.write(CHILD_REPORT)
-        d = os.path.join(wd, 'cwd')
+        d = os.path.join(wd, 'cwd_' + variant)
         os.mkdir(d)
         options = ServerOptions()
         options.minfds = 64
@@ -585,21 +587,23 @@ def fork_smoke(chk, wd):
         options.loglevel = 20
         options.strip_ansi = False
         params = dict(
-            name='smoke', uid=None, command='%s %s' % (vlib.PY, script), directory=d, umask=0o37,
+            name='smoke', uid=None, command='%s %s' % (vlib.PY, script), directory=d if full else None,
+            umask=0o37 if full else 0,
             priority=999, autostart=True, autorestart=False, startsecs=0, startretries=0,
             stdout_logfile=None, stdout_capture_maxbytes=0, stdout_events_enabled=False, stdout_syslog=False,
             stdout_logfile_backups=0, stdout_logfile_maxbytes=0,
             stderr_logfile=None, stderr_capture_maxbytes=0, stderr_logfile_backups=0, stderr_logfile_maxbytes=0,
             stderr_events_enabled=False, stderr_syslog=False,
             stopsignal=15, stopwaitsecs=1, stopasgroup=False, killasgroup=False, exitcodes=(0,),
-            redirect_stderr=False, environment={'C18': 'yes', 'SUPERVISOR_ENABLED': 'overridden'}, serverurl=None)
+            redirect_stderr=not full,
+            environment={'C18': 'yes', 'SUPERVISOR_ENABLED': 'overridden'} if full else None, serverurl=None)
         pconfig = ProcessConfig(options, **params)
         proc = Subprocess(pconfig)
 
         class G(object):
             class config(object):
                 name = 'smokegroup'
-        proc.group = G()
+        proc.group = G() if full else None
         extra = os.open(os.devnull, os.O_RDONLY)        # a descriptor the child must not inherit (< minfds)
         os.dup2(extra, 20)
         os.close(extra)
@@ -638,17 +642,23 @@ def fork_smoke(chk, wd):
         for n in ('0', '1', '2'):
             if not rep['fds'].get(n, '').startswith('pipe:'):
                 problems.append('descriptor %s is not a pipe' % n)
-        if rep['fds'].get('1') == rep['fds'].get('2'):
-            problems.append('stderr shares the stdout pipe without redirect_stderr')
+        if (rep['fds'].get('1') == rep['fds'].get('2')) != (not full):
+            problems.append('stderr %s the stdout pipe with redirect_stderr=%r' % (
+                'shares' if full else 'does not share', not full))
         if rep['pgid'] != rep['pid']:
             problems.append('child is not a process group leader')
-        if os.path.realpath(rep['cwd']) != os.path.realpath(d):
+        if os.path.realpath(rep['cwd']) != os.path.realpath(d if full else os.getcwd()):
             problems.append('cwd %r' % rep['cwd'])
-        if rep['umask'] != 0o37:
+        if rep['umask'] != (0o37 if full else 0):
             problems.append('umask %o' % rep['umask'])
         want = dict(os.environ)
-        want.update({'SUPERVISOR_ENABLED': 'overridden', 'SUPERVISOR_SERVER_URL': 'unix:///smoke.sock',
-                     'SUPERVISOR_PROCESS_NAME': 'smoke', 'SUPERVISOR_GROUP_NAME': 'smokegroup', 'C18': 'yes'})
+        if full:
+            want.update({'SUPERVISOR_ENABLED': 'overridden', 'SUPERVISOR_SERVER_URL': 'unix:///smoke.sock',
+                         'SUPERVISOR_PROCESS_NAME': 'smoke', 'SUPERVISOR_GROUP_NAME': 'smokegroup', 'C18': 'yes'})
+        else:
+            want.update({'SUPERVISOR_ENABLED': '1', 'SUPERVISOR_SERVER_URL': 'unix:///smoke.sock',
+                         'SUPERVISOR_PROCESS_NAME': 'smoke'})
+            want.pop('SUPERVISOR_GROUP_NAME', None)
         got = dict(rep['env'])
         for k in ('LC_CTYPE',):     # CPython may add it at start-up
             if k not in want:
@@ -658,10 +668,10 @@ def fork_smoke(chk, wd):
             problems.append('environment differs: %r' % diff)
         if problems:
             chk.violation({'kind': 'real forked child does not run in the promised environment', 'problems': problems,
-                           'report': rep})
+                           'variant': variant, 'report': rep})
             return 'FAILED ' + '; '.join(problems)
         chk.dist('fork_smoke')
-        return 'ok: pgid=pid, fds 0-2 are pipes, nothing open in 3..63, cwd, umask 037 and environment as promised'
+        return 'ok (%s): the configured command ran with pgid=pid, fds 0-2 pipes, nothing open in 3..63, cwd, umask and environment as promised' % variant
     except (OSError, ImportError, ValueError, TypeError, AttributeError) as e:
         return 'skipped: %r' % (e,)
 
